@@ -17,8 +17,11 @@ RULE = ('correspondence: random histories over a real Fit (prefilled with ship, 
         "eos' own attribute values, rack lengths) goes to the Lean model, which recomputes every fit.stats observation "
         'statelessly; compared: resource use/output, 12 slot stats, hp, resists, ehp (default / random / D15-seeking '
         'profile), worst-case ehp, volley and dps (reload on/off) under item filters from a predicate language and target '
-        'resists, armor/shield rps. Non-trivial = non-zero value or raised error; distinct by (observation, result). '
-        'Plus get_cycle_parameters on a grid and random/boundary numbers. Oracle: laws and rebuild-from-scratch on impl.')
+        'resists, armor/shield rps; white box: the message stream the fit really publishes (recorded by a spy subscriber) is '
+        'fed to the Lean toggle-register model, whose member sets are compared with the 14 private register containers '
+        'and whose alternation hypothesis is checked on that stream. Non-trivial = non-zero value, raised error or non-empty '
+        'register; distinct by (observation, result). Plus get_cycle_parameters on random/boundary numbers. Oracle: laws, '
+        'rebuild-from-scratch and independent recomputation on impl.')
 ASSUMPTIONS = [
     'attribute values and running-effect sets are taken from eos as inputs of the recomputation (their correctness is C01/C02/C05)',
     'exact rational arithmetic on the model side; impl floats compared with 1e-9 relative tolerance; round(x,2) of cpu/powergrid '
@@ -32,8 +35,9 @@ CLAUSES = {
     'stats always equal the value recomputed from current items, whatever the history':
         'registers: proved for all message histories with alternating switch-on messages (stat_register_tracks, '
         'strict_remove_present, stats_eq_spec) + handler maps regenerated and proved equal to the needed message pairs '
-        '(gen_handlerMaps_eq_spec); that the real message stream alternates and that the stateless model is the code: '
-        'correspondence only (random histories, every step)',
+        '(gen_handlerMaps_eq_spec); alternatesB_sound links the executable alternation check to the hypothesis. That the real '
+        'message stream alternates, that each handler is the toggle the model says, and that the stateless recomputation is '
+        'the code: correspondence only (random histories, black box and white box, every step)',
     'DPS and volley additive over any partition of items by filter': 'proved (genSum_partition, volley_additive, dps_additive)',
     'taking reload into account never increases DPS': 'proved (reload_avg_ge, avg_pos, reload_dps_le) over the model of '
         'get_cycle_parameters, which is tied by the regenerated decision table (gen_cycle_table) and correspondence',
@@ -50,6 +54,7 @@ LEVEL_NOTE = ('Trusted: Lean kernel + 3 standard axioms; AST translator and hand
               'mapping; float rounding not modelled; attribute values / running effects are inputs (C01/C05).')
 TECHNIQUE = 'Lean 4 proof over regenerated formulas and handler maps + differential correspondence on random histories'
 TRUSTED = ['C04: eos attribute values and running-effect sets are inputs of the stateless recomputation']
+
 
 # ------------------------------------------------------------------ histories
 def run_history(seed, rnd, steps, visit):
@@ -255,7 +260,7 @@ def _both(f1, f2):
 
 def check_laws(w, rnd, rep, case):
     """The algebraic laws of the property evaluated on the real fit at its current state."""
-    from eos import DmgProfile, ResistProfile
+    from eos import ResistProfile
     st = w.fit.stats
     w.index()
     # --- EHP laws
@@ -322,7 +327,6 @@ def check_laws(w, rnd, rep, case):
 def check_recompute(w, rnd, rep, case):
     """fit.stats of the incrementally maintained fit == fit.stats of a fit built from scratch with the same
     configuration, and == a direct recomputation of the register-backed numbers from the public API."""
-    from eos import Drone, FighterSquad
     from eos.const.eve import AttrId as A, EffectId as E
     m = w.rebuild()
     w.index()
